@@ -658,6 +658,100 @@ def canonicalise_fields(doc):
 _PARAM_TABLE = None
 
 
+def module_renames(doc):
+    """undo the rename / split of a *module*: a module that is not in the pinned tree
+    (jbv/pinned_mods.json) whose functions, read under the name of a pinned module, are exactly
+    functions the pinned tree has and the current tree lacks, is that module (a renamed file, or
+    items moved out into a new file).  Returns [(new, pinned)], shortest new path first; the
+    caller substitutes the path prefix in the whole fact text.  Only undoes moves: a module whose
+    functions are genuinely new recovers nothing and is left alone."""
+    here = os.path.dirname(os.path.abspath(__file__))
+    try:
+        sigs = json.load(open(os.path.join(here, "pinned_sigs.json")))
+        pmods = set(json.load(open(os.path.join(here, "pinned_mods.json"))))
+    except OSError:
+        return []
+    cur = set(b["path"] for b in doc["bodies"] if b.get("kind") != "Closure")
+    missing = set(m for m in sigs if m not in cur)
+    if not missing:
+        return []
+    out = []
+    newmods = sorted((m for m in doc.get("mods", []) if m and m not in pmods), key=lambda m: (m.count("::"), m))
+    for nm in newmods:
+        # already covered by a parent mapping?
+        eff = nm
+        for a, b_ in out:
+            if eff == a or eff.startswith(a + "::"):
+                eff = b_ + eff[len(a):]
+        if eff in pmods:
+            continue
+        rx = re.compile(r"(?<![\w:])" + re.escape(nm) + r"::")
+        mine = [p for p in cur if rx.search(p)]
+        if not mine:
+            continue
+        best = []
+        for lm in sorted(pmods):
+            if not lm:
+                continue
+            mapped = [rx.sub(lambda _m, lm=lm: lm + "::", p) for p in mine]
+            if any(q in cur for q in mapped):
+                continue
+            rec = sum(1 for q in mapped if q in missing)
+            if rec:
+                best.append((rec, lm))
+        if not best:
+            continue
+        best.sort(reverse=True)
+        if len(best) > 1 and best[0][0] == best[1][0]:
+            continue
+        out.append((nm, best[0][1]))
+    return out
+
+
+def adt_renames(doc):
+    """undo the rename of a struct / enum: an ADT that is not in the pinned tree
+    (jbv/pinned_fields.json) while exactly one pinned ADT of the same module with the same
+    variants and field names is missing (or, failing that, the module lost exactly one ADT and
+    gained exactly one with the same number of fields) is that ADT under a new name."""
+    here = os.path.dirname(os.path.abspath(__file__))
+    try:
+        pf = json.load(open(os.path.join(here, "pinned_fields.json")))
+    except OSError:
+        return []
+    cur = {}
+    for a in doc.get("adts", []):
+        if "::_::" in a["path"] or a["path"].startswith("<"):
+            continue
+        cur[a["path"]] = a
+    missing = [m for m in pf if m not in cur and "::_::" not in m and not m.startswith("<")]
+    new = [n for n in cur if n not in pf]
+    if not missing or not new:
+        return []
+
+    def shape(a):
+        return {v["name"]: [f["name"] for f in v["fields"]] for v in a.get("variants", [])}
+    out = []
+    taken = set()
+    for n in sorted(new):
+        mod = n.rsplit("::", 1)[0] if "::" in n else ""
+        try:
+            sh = shape(cur[n])
+        except (KeyError, TypeError):
+            continue
+        # the variant of a struct carries the struct's own name: compare field lists only
+        shv = sorted(sh.values())
+        cands = [m for m in missing if (m.rsplit("::", 1)[0] if "::" in m else "") == mod and m not in taken
+                 and sorted(pf[m].values()) == shv]
+        if len(cands) != 1:
+            mm = [m for m in missing if (m.rsplit("::", 1)[0] if "::" in m else "") == mod and m not in taken]
+            nn = [x for x in new if (x.rsplit("::", 1)[0] if "::" in x else "") == mod]
+            cands = mm if len(mm) == 1 and len(nn) == 1 and sorted(len(v) for v in pf[mm[0]].values()) == sorted(len(v) for v in shv) else []
+        if len(cands) == 1:
+            out.append((n, cands[0]))
+            taken.add(cands[0])
+    return out
+
+
 def canonicalise_fn_renames(doc):
     """undo the rename of a private function: a function that is not in the pinned tree, while
     exactly one pinned function of the same impl / module with the same signature is missing, is
@@ -842,6 +936,19 @@ class Program:
         # (`model::mean_vari::_::_serde::de::Visitor`).  Normalise to `serde::`.
         text = re.sub(r"\b(?:\w+::)+_::_serde::", "serde::", text)
         doc = json.loads(text)
+        if not os.environ.get("JBV_NO_CANON") and doc.get("crate") == "jbonsai":
+            mr = module_renames(doc)
+            if mr:
+                for nm, lm in mr:
+                    text = re.sub(r"(?<![\w:])" + re.escape(nm) + r"(?=::|\")", lambda _m, lm=lm: lm, text)
+                doc = json.loads(text)
+            ar = adt_renames(doc)
+            if ar:
+                for nm, lm in ar:
+                    text = re.sub(r"(?<![\w:])" + re.escape(nm) + r"(?![\w])", lambda _m, lm=lm: lm, text)
+                doc = json.loads(text)
+            doc["module_renames"] = mr
+            doc["adt_renames"] = ar
         mode = os.environ.get("JBV_ANON")
         if mode:
             anonymise(doc, mode)
